@@ -43,7 +43,10 @@ def install(lib):
                                                                   c.new.f["stats.num_item_discarded"].t == 0), ("C18",)),
                 Clause("accounting-starts-at-zero", lambda c: z3.And(
                     *[c.new.f[TT + k].t == 0 for k in lib.profile(cls)["states"]],
-                    c.new.f["stats.last_state_change_time"].isnone, c.new.f["num_workers"].t == 0,
+                    # the accounting clock starts at construction, so that the set-up period is charged to SETUP_STATE
+                    # by the first update_state and a finalisation during set-up works (property C17)
+                    z3.Not(c.new.f["stats.last_state_change_time"].isnone),
+                    c.new.f["stats.last_state_change_time"].val.t == c.old.now, c.new.f["num_workers"].t == 0,
                     c.new.f["worker_thread_list"].len == 0, c.new.f["state"].t == sc("SETUP_STATE"),
                     c.new.f["time_per_work_occupancy"].len == 2), ("C17",)),
                 Clause("one-worker-slot", lambda c: z3.And(
